@@ -49,7 +49,7 @@ const MarkerTTL = 7777
 
 var (
 	MarkerV4      = []netip.Addr{netip.MustParseAddr("198.51.100.11"), netip.MustParseAddr("198.51.100.22"), netip.MustParseAddr("198.51.100.33")}
-	MarkerV6      = []netip.Addr{netip.MustParseAddr("2001:db8:ffff::a1"), netip.MustParseAddr("2001:db8:ffff::b2")}
+	MarkerV6      = []netip.Addr{netip.MustParseAddr("2001:db8:ffff::a1"), netip.MustParseAddr("2001:db8:ffff::b2"), netip.MustParseAddr("2001:db8:ffff::c3")}
 	MarkerTargets = []string{"m1.mark.test", "m2.mark.test"}
 )
 
@@ -689,31 +689,101 @@ func (c *Config) evalBasic(host string, qt uint16) (outs []Outcome) {
 type AnswerName struct {
 	Host string
 	Type uint16
+	// Group numbers the records and, within an HTTPS record, its hint
+	// parameters, in the order they are looked at.
+	Group int
 }
 
 // AnswerNames lists what is looked up for an upstream answer, in order.
 func AnswerNames(resp *dns.Msg) (names []AnswerName) {
+	g := 0
 	for _, rr := range resp.Answer {
 		switch rr := rr.(type) {
 		case *dns.A:
-			names = append(names, AnswerName{Host: rr.A.String(), Type: dns.TypeA})
+			names = append(names, AnswerName{Host: rr.A.String(), Type: dns.TypeA, Group: g})
 		case *dns.AAAA:
-			names = append(names, AnswerName{Host: rr.AAAA.String(), Type: dns.TypeAAAA})
+			names = append(names, AnswerName{Host: rr.AAAA.String(), Type: dns.TypeAAAA, Group: g})
 		case *dns.CNAME:
-			names = append(names, AnswerName{Host: strings.TrimSuffix(rr.Target, "."), Type: dns.TypeCNAME})
+			names = append(names, AnswerName{Host: strings.TrimSuffix(rr.Target, "."), Type: dns.TypeCNAME, Group: g})
 		case *dns.HTTPS:
 			for _, kv := range rr.Value {
 				switch kv.Key() {
 				case dns.SVCB_IPV4HINT, dns.SVCB_IPV6HINT:
-					for _, s := range strings.Split(kv.String(), ",") {
-						names = append(names, AnswerName{Host: s, Type: dns.TypeHTTPS})
+					if kv.String() == "" {
+						continue
 					}
+
+					for _, s := range strings.Split(kv.String(), ",") {
+						names = append(names, AnswerName{Host: s, Type: dns.TypeHTTPS, Group: g})
+					}
+
+					g++
 				}
 			}
 		}
+
+		g++
 	}
 
 	return names
+}
+
+// HasVerdict reports whether the rule sources of c have a verdict on the name
+// of an answer.
+func (c *Config) HasVerdict(n AnswerName) bool {
+	if c == nil {
+		return false
+	}
+
+	b := basic(c.ruleSources(), n.Host, n.Type)
+
+	return len(b.allow) > 0 || len(b.block) > 0
+}
+
+// LaterHintDecides reports whether resp has an HTTPS record whose first hint
+// parameter with addresses has no verdict while a later hint parameter of the
+// same record has one, and nothing before that record has a verdict.
+func (c *Config) LaterHintDecides(resp *dns.Msg) bool {
+	if c == nil || resp == nil {
+		return false
+	}
+
+	for _, rr := range resp.Answer {
+		one := &dns.Msg{Answer: []dns.RR{rr}}
+		names := AnswerNames(one)
+		if _, ok := rr.(*dns.HTTPS); !ok {
+			for _, n := range names {
+				if c.HasVerdict(n) {
+					return false
+				}
+			}
+
+			continue
+		}
+
+		first, later := false, false
+		for _, n := range names {
+			if !c.HasVerdict(n) {
+				continue
+			}
+
+			if n.Group == 0 {
+				first = true
+			} else {
+				later = true
+			}
+		}
+
+		if first {
+			return false
+		}
+
+		if later {
+			return true
+		}
+	}
+
+	return false
 }
 
 // EvalResponse returns the acceptable verdicts on an upstream answer.  Rewrite
